@@ -110,6 +110,10 @@ func c18Payload(seed uint64, idx, n int) []byte {
 
 // c18Build encodes the client byte stream of a scenario (without the closing PINGREQ).
 func c18Build(v int, seed uint64, items []c18Item) (*c18Layout, error) {
+	return c18BuildFor(v, seed, items, c18ClientID, c18Topic)
+}
+
+func c18BuildFor(v int, seed uint64, items []c18Item, c18ClientID, c18Topic string) (*c18Layout, error) {
 	l := &c18Layout{}
 	add := func(kind string, p *mw.Packet) error {
 		b, err := mw.Encode(p, ver(v))
@@ -767,7 +771,7 @@ func c18TextOracle(s c18Scen, c *ev.Case, l *c18Layout, msgs [][2]int, textIdx i
 	return nil
 }
 
-const c18Rule = "rapid-generated client byte streams (CONNECT v3.1.1|v5 clean, SUBSCRIBE 'e' QoS1, 1-6 PUBLISH QoS1 to 'e' with LCG payloads of 0..3000 bytes biased so that the whole packet is 1023/1024/1025/2047/2048/2049 bytes, PINGREQs) and a segmentation into websocket messages (union of up to 3 shapes: free cuts, runs of one-byte messages, whole stream in one-byte messages, packet boundaries exact/-1/+1, one message per packet with merges, trains of messages of exactly 1023/1024/1025/2047/2048/2049/2/3/512 bytes from a packet start/+-1/free offset, empty messages; no cut = one message); 1 in 8 cases sends one message as TEXT. Oracle: differential with the same bytes sent in one piece over the in-memory stream transport to an identical fresh broker; all received frames binary; handler responses and echoed PUBLISHes equal to the reference field by field (ids, payload bytes) in order; closing PINGREQ answered; TEXT: connection closed, only responses to packets that ended before the text message, observer (sentinel barrier) sees no later publish. Non-trivial: some message boundary is not a packet boundary, or a message longer than 1024 bytes; distinct by scenario digest."
+const c18Rule = "rapid-generated client byte streams (CONNECT v3.1.1|v5 clean, SUBSCRIBE 'e' QoS1, 1-6 PUBLISH QoS1 to 'e' with LCG payloads of 0..3000 bytes biased so that the whole packet is 1023/1024/1025/2047/2048/2049 bytes, PINGREQs) and a segmentation into websocket messages (union of up to 3 shapes: free cuts, runs of one-byte messages, whole stream in one-byte messages, packet boundaries exact/-1/+1, one message per packet with merges, trains of messages of exactly 1023/1024/1025/2047/2048/2049/2/3/512 bytes from a packet start/+-1/free offset, empty messages; no cut = one message); 1 in 8 cases sends one message as TEXT. Oracle: differential with the same bytes sent in one piece over the in-memory stream transport to an identical fresh broker; all received frames binary; handler responses and echoed PUBLISHes equal to the reference field by field (ids, payload bytes) in order; closing PINGREQ answered; TEXT: connection closed, only responses to packets that ended before the text message, observer (sentinel barrier) sees no later publish. Non-trivial: some message boundary is not a packet boundary, or a message longer than 1024 bytes; distinct by scenario digest. TestC18Concurrent: 2-6 websocket connections on ONE broker at once, each with its own stream (own id, topic, payloads), every websocket message further cut into hand-written websocket FRAMES (fragmented messages, 0-3 ms pauses between frames, so several half-received messages coexist), plus 0-6 roamer connections that are taken over by a second CONNECT (in-memory transport or websocket) while their reader is provably (ping/pong) inside a fragmented message, before and while the streams run; per stream the decoded responses must be CONNACK, SUBACK, one PUBACK/PINGRESP per packet in order and the echoes of exactly its own payload bytes, all binary, connection open at the end; non-trivial there: at least one roamer."
 
 func TestC18Segmentation(t *testing.T) {
 	ev.SetRule("C18", c18Rule)
